@@ -43,6 +43,9 @@ def run(rep, tier, seed):
         if c["out"]["k"] == "ok":
             seen.setdefault(json.dumps(c["s"], sort_keys=True), c)
     c7 = list(seen.values())
+    if tier == "quick":
+        import random
+        c7 = random.Random(seed).sample(c7, min(len(c7), 1200))
     for c in c7:
         c["files"] = files
         c["sections"] = ["ops", "modes"]
